@@ -767,7 +767,8 @@ impl<'a, 'r> ZooVisitor<'a, (Vec<Op>, Ran)> for ZooDrive<'a, 'r> {
 }
 
 /// Run one fully specified case (`Plan::Given`) or generate its history first (`Plan::Gen`).
-/// Build with every combinator node replaced by its own clone (see build::set_clone_nodes).
+/// Build with every combinator node replaced by its own clone (see build::set_clone_nodes) and every
+/// configurable parser used through a reference (see build::set_cfg_by_ref).
 fn cloned_build<'a, I>(g: &G, on: bool) -> BP<'a, I>
 where
     I: crate::build::Caps<'a>,
@@ -775,8 +776,10 @@ where
     I::Span: SpanX,
 {
     crate::build::set_clone_nodes(on);
+    crate::build::set_cfg_by_ref(on);
     let r = std::panic::catch_unwind(std::panic::AssertUnwindSafe(|| build::<I>(g)));
     crate::build::set_clone_nodes(false);
+    crate::build::set_cfg_by_ref(false);
     match r {
         Ok(p) => p,
         Err(e) => std::panic::resume_unwind(e),
